@@ -87,7 +87,7 @@ def base_coverage(run, r, au, extra_rule=''):
         validator_runs=sum(certs.values()), validator_ok=certs.get('OK', 0), validator_ok_lookaround=certs.get('OKL', 0),
         validator_lookaround_uncertified=certs.get('LOOK', 0),
         validator_unknown=certs.get('UNKNOWN', 0), validator_fail=certs.get('FAIL', 0),
-        checker_cmd=au['checker_cmd'], trusted_base=TRUSTED_BASE,
+        checker_cmd=au['checker_cmd'], kernel_recheck=au.get('kernel_recheck'), trusted_base=TRUSTED_BASE,
         graph_passes_predicted=dict(
             same=sum(1 for i in r['accepted'] if lean.get('%d PASSES' % i, '').startswith('SAME')),
             side_conditions_hold=sum(1 for i in r['accepted'] if lean.get('%d PASSES' % i, '').endswith('side=1')),
@@ -1318,7 +1318,7 @@ def check_c12(tier, seed, log=print):
     if tie_dis:
         run.violation('tie', dict(what='%d streams differ between compiled lexers and the interpreter model' % tie_dis), no_input=True)
     run.coverage.update(dict(obligations=au['obligations'], discharged=au['discharged'], theorems=au['names'], axioms=au['axioms'],
-                             checker_cmd=au['checker_cmd'], trusted_base=TRUSTED_BASE,
+                             checker_cmd=au['checker_cmd'], kernel_recheck=au.get('kernel_recheck'), trusted_base=TRUSTED_BASE,
                              evaluations=evals, distinct_nontrivial=len(nontriv), definition_pairs=len(pairs), identical_graphs=same_graph,
                              rule='every str-mode corpus definition is compiled a second time with utf8 = false; both lexers run on the same valid UTF-8 inputs (transition-directed + samples); Ok items with spans and the list of bytes covered by errors must coincide; '
                                   'captured graphs compared; root checked for continuation-byte edges; non-trivial = multi-byte input with an error item',
